@@ -211,6 +211,27 @@ var scaleShapes = func() []scaleShape {
 			})
 		}
 	}
+	// negative serial numbers by magnitude width (two's complement: the content octets differ from the magnitude's)
+	for _, sz := range []int{8, 19, 20, 21, 22, 33} {
+		for _, lead := range []byte{0x01, 0x7f, 0x80, 0x96, 0xff} {
+			sz, lead := sz, lead
+			cert(fmt.Sprintf("negative serial number, magnitude of %d octets leading %#02x", sz, lead), func() *gen.Spec {
+				b := make([]byte, sz)
+				for i := range b {
+					b[i] = byte(0x23 + i)
+				}
+				b[0] = lead
+				s := gen.TLSLeaf(nb, "www.example.com")
+				s.Serial = new(big.Int).Neg(new(big.Int).SetBytes(b))
+				return s
+			})
+		}
+	}
+	cert("serial number -2^159", func() *gen.Spec {
+		s := gen.TLSLeaf(nb, "www.example.com")
+		s.Serial = new(big.Int).Neg(new(big.Int).Lsh(big.NewInt(1), 159))
+		return s
+	})
 	cert("serial number zero", func() *gen.Spec { s := gen.TLSLeaf(nb, "www.example.com"); s.Serial = big.NewInt(0); return s })
 	cert("serial number negative", func() *gen.Spec { s := gen.TLSLeaf(nb, "www.example.com"); s.Serial = big.NewInt(-12345); return s })
 	// 7. string lengths
@@ -290,6 +311,34 @@ var scaleShapes = func() []scaleShape {
 				s.NotBefore, s.NotAfter = d.nb, d.na
 				return s
 			})
+		}
+	}
+	// 8b. CRL entries whose serial numbers are wide (19 - 33 octets), negative, and listed once or twice
+	for _, sz := range []int{19, 20, 21, 22, 26, 33} {
+		for v := 0; v < 4; v++ {
+			sz, v := sz, v
+			out = append(out, scaleShape{fmt.Sprintf("crl with revoked serial numbers of %d octets (variant %d: 0 distinct, 1 repeated, 2 negative, 3 negative repeated)", sz, v), corpus.CRL, func() []byte {
+				tu := gen.D(2024, 3, 1)
+				s := gen.BasicCRL(tu)
+				s.Revoked = nil
+				mk := func(k int) *der.Node {
+					b := make([]byte, sz)
+					for i := range b {
+						b[i] = byte(0x31 + i + k)
+					}
+					b[0] = 0x01
+					n := new(big.Int).SetBytes(b)
+					if v >= 2 {
+						n.Neg(n)
+					}
+					return der.Seq(der.Int(n), der.Time(tu.Add(-time.Hour)))
+				}
+				s.Revoked = append(s.Revoked, gen.Revoked(7, tu.Add(-time.Hour)), mk(0), mk(1))
+				if v%2 == 1 {
+					s.Revoked = append(s.Revoked, mk(0))
+				}
+				return s.DER()
+			}})
 		}
 	}
 	// 9. CRL entry counts, one offending entry at the end
